@@ -352,7 +352,7 @@ def r_pure(ctx, fqs=None, only_params=None, floor=0):
         raise AnalysisError("R-PURE positive control not flagged as expected: %s" % got)
     eff = Effects(ctx)
     n = 0
-    for fq in sorted(fqs or ctx.p.funcs):
+    for fq in sorted(fqs or ctx.reachable()):
         f = ctx.p.func(fq)
         ws = eff.writes.get(fq, [])
         for p in f.params:
@@ -393,7 +393,7 @@ def r_state(ctx):
                         "approximate_capacity; clock reads only inside Monitor; the iteration order of a set reaches a "
                         "return value only through sorted / len / another set")
     allowed_rng = {'dsw.spiderweb.create_random_shuffles', 'dsw.graphized.approximate_capacity'}
-    for fq in sorted(ctx.p.funcs):
+    for fq in sorted(ctx.reachable()):
         f = ctx.p.func(fq)
         bad = state_violations(ctx, f)
         run.check(not bad, 'R-STATE', f, 'no-module-state', bad[0][0] if bad else f.node.lineno,
@@ -668,7 +668,7 @@ def r_verb(ctx, floor_funcs=0):
                        "print and of a Monitor instance (and nested ifs), with side-effect-free arguments, and (2) passed "
                        "down as the verbose argument of a dsw function; the Monitor instance is used nowhere else")
     nf = nreg = npass = 0
-    for fq in sorted(ctx.p.funcs):
+    for fq in sorted(ctx.reachable()):
         f = ctx.p.func(fq)
         if 'verbose' not in f.params:
             continue
@@ -676,6 +676,8 @@ def r_verb(ctx, floor_funcs=0):
         monitors = {d.name for d in f.defs if d.kind == 'assign' and d.value is not None and
                     _is_monitor_ctor(f, d)}
         monitors = {m for m in monitors if all(_is_monitor_ctor(f, d) for d in f.defs if d.name == m)}
+        if 'monitor' in f.params:
+            monitors.add('monitor')     # a helper that is handed the caller's progress monitor
         # plain copies (x = verbose / m = monitor, e.g. parameter bindings of an inlined helper) are the same thing
         vnames = {'verbose'}
         changed = True
@@ -708,13 +710,17 @@ def r_verb(ctx, floor_funcs=0):
                     bad.append((n.lineno, 'verbose is combined in the test %s in a way that is not a pure guard' % ast.unparse(n.test)))
                     continue
                 nreg += 1
-                for st in n.body:
+                twin_arms = bool(n.orelse) and _dump_without_progress(n.body, monitors) == _dump_without_progress(n.orelse, monitors)
+                for st in ([] if twin_arms else n.body):
                     b = _region_violation(st, monitors, _region_locals(f.node, vnames))
                     if b:
                         bad.append((st.lineno, b))
                 if n.orelse and not _positive_guard(n.test):
                     pass
-                if n.orelse and _positive_guard(n.test):
+                if n.orelse and _positive_guard(n.test) and \
+                        _dump_without_progress(n.body, monitors) == _dump_without_progress(n.orelse, monitors):
+                    pass        # both arms do the same work; the verbose arm only adds progress output
+                elif n.orelse and _positive_guard(n.test):
                     # the else arm runs when verbose is off: it must be effect-free too (otherwise results differ)
                     for st in n.orelse:
                         b = _region_violation(st, monitors, _region_locals(f.node, vnames))
@@ -791,6 +797,26 @@ def _pure_expr(e):
         if isinstance(n, (ast.NamedExpr, ast.Await, ast.Yield, ast.YieldFrom)):
             return False
     return True
+
+
+def _dump_without_progress(stmts, monitors):
+    """structure of a statement list with print(...) / monitor(...) statements removed"""
+    import copy
+
+    def strip(block):
+        out = []
+        for st in block:
+            if isinstance(st, ast.Expr) and isinstance(st.value, ast.Call) and isinstance(st.value.func, ast.Name) and \
+                    (st.value.func.id == 'print' or st.value.func.id in monitors):
+                continue
+            st = copy.copy(st)
+            for field in ('body', 'orelse', 'finalbody'):
+                b = getattr(st, field, None)
+                if isinstance(b, list) and b and isinstance(b[0], ast.stmt):
+                    setattr(st, field, strip(b) or [ast.Pass()])
+            out.append(st)
+        return out
+    return [ast.dump(s) for s in strip(stmts)]
 
 
 def _region_locals(fn, vnames):
